@@ -210,7 +210,7 @@ fn op(prop: &str, malicious: bool) -> BoxedStrategy<Op> {
     // (sender 200: the governance address itself sends tokens - honoured in C18 histories only)
     let send_c = (prop_oneof![12 => user().boxed(), 1 => Just(200u8).boxed()], prop_oneof![15 => 0u8..3, 1 => Just(3u8)], 0u8..N_CW20 as u8, send_amt(), prop_oneof![6 => Just(None), 1 => Just(Some(0u32)), 1 => Just(Some(1u32)), 3 => (1u32..5000).prop_map(Some)], memo()).prop_map(|(by, ch, tok, amt, timeout, memo)| Op::SendCw20 { by, ch, tok, amt, timeout, memo }).boxed();
     let deliver = any::<u16>().prop_map(|pkt| Op::Deliver { pkt }).boxed();
-    let recv = (0u8..3, 0u8..N_TOK as u8, proptest::option::weighted(0.8, any::<u16>()), form(malicious), recv_amt(malicious), if malicious { prop_oneof![12 => 0u8..N_USERS as u8, 1 => Just(N_USERS as u8), 1 => Just(N_USERS as u8 + 1)].boxed() } else { prop_oneof![12 => 0u8..N_USERS as u8, 1 => Just(N_USERS as u8)].boxed() }, proptest::bool::weighted(0.2), proptest::bool::weighted(0.2))
+    let recv = (0u8..3, 0u8..N_TOK as u8, proptest::option::weighted(0.8, any::<u16>()), form(malicious), recv_amt(malicious), prop_oneof![12 => 0u8..N_USERS as u8, 1 => Just(N_USERS as u8), 1 => Just(N_USERS as u8 + 1)].boxed(), proptest::bool::weighted(0.2), proptest::bool::weighted(0.2))
         .prop_map(|(ch, tok, live, form, amt, receiver, payout_fails, memo)| Op::Recv { ch, tok, live, form, amt, receiver, payout_fails, memo })
         .boxed();
     // third arm: a well-formed packet whose denom trace names an odd, long, non-ASCII channel (error texts echo it)
@@ -805,7 +805,10 @@ pub fn run_case(prop: &str, case: &Case, ctx: &mut CaseCtx) -> Result<(), Violat
                     other => other.clone(),
                 };
                 let memo = &memo;
-                let tmsg = TransferMsg { channel: if ch_exists { chan_id(chx) } else { "channel-77".into() }, remote_address: remote.clone(), timeout: timeout.map(|t| t as u64), memo: memo.clone() };
+                // (a channel that was never connected: an id nobody uses, or - every other time - the id the other
+                // side uses for one of our channels, where that is not an id of ours as well)
+                let unknown_channel: String = (0..n_ch).map(remote_chan_id).find(|r| step_no % 2 == 0 && !(0..n_ch).any(|l| chan_id(l) == *r)).unwrap_or_else(|| "channel-77".to_string());
+                let tmsg = TransferMsg { channel: if ch_exists { chan_id(chx) } else { unknown_channel }, remote_address: remote.clone(), timeout: timeout.map(|t| t as u64), memo: memo.clone() };
                 let r = if is_native {
                     try_exec(&mut w.app, &w.users[by].clone(), &w.ics20.clone(), &ExecuteMsg::Transfer(tmsg), &[Coin::new(amount, w.natives[tok].clone())])
                 } else {
@@ -884,11 +887,10 @@ pub fn run_case(prop: &str, case: &Case, ctx: &mut CaseCtx) -> Result<(), Violat
                         eff_form = DenomForm::Bare;
                     }
                 }
-                // receiver N_USERS: not an address at all; N_USERS + 1 (malicious counterparty only): the ics20
-                // contract's own address
+                // receiver N_USERS: not an address at all; N_USERS + 1: the ics20 contract's own address
                 let (rcv_ix, rcv_str) = if (*receiver as usize) < N_USERS {
                     (Some(*receiver as usize), w.users[*receiver as usize].to_string())
-                } else if *receiver as usize == N_USERS + 1 && case.malicious {
+                } else if *receiver as usize == N_USERS + 1 {
                     (None, w.ics20.to_string())
                 } else {
                     (None, "not-a-valid-address".to_string())
@@ -1144,10 +1146,26 @@ pub fn run_case(prop: &str, case: &Case, ctx: &mut CaseCtx) -> Result<(), Violat
                     if prop == "C11" && (!matches!(form, DenomForm::Right) || *amount > out_pre) {
                         return Err(v(prop, "foreign-or-excess-packet-released", format!("{at}: packet with denom form {:?} and amount {amount} (channel outstanding {out_pre}) got a success acknowledgement", form)));
                     }
-                    if prop == "C12" {
+                    let to_self = matches!(op, Op::Recv { receiver, .. } if *receiver as usize == N_USERS + 1);
+                    if prop == "C12" && to_self {
+                        // paid to the contract's own account: balances cannot show it, the payout itself must have
+                        // been issued (a bank send / cw20 transfer of the full amount to that account)
+                        let me = w.ics20.to_string();
+                        let issued = *amount == 0 || subs.iter().any(|s| match &s.msg {
+                            cosmwasm_std::CosmosMsg::Bank(cosmwasm_std::BankMsg::Send { to_address, amount: coins }) => *to_address == me && coins.iter().any(|c| c.amount.u128() == *amount),
+                            cosmwasm_std::CosmosMsg::Wasm(WasmMsg::Execute { msg, .. }) => matches!(cosmwasm_std::from_json::<Cw20ExecuteMsg>(msg), Ok(Cw20ExecuteMsg::Transfer { recipient, amount: a }) if recipient == me && a.u128() == *amount),
+                            _ => false,
+                        });
+                        ctx.count("redeemed_to_the_contract_itself");
+                        if !issued {
+                            return Err(v(prop, "success-ack-without-full-payout", format!("{at}: success acknowledgement for a packet whose receiver is the contract's own account, but no payout of {amount} to it was issued (sub-messages: {:?})", subs.iter().map(|s| &s.msg).collect::<Vec<_>>())));
+                        }
+                    } else if prop == "C12" {
                         if gained != *amount || (receiver.is_none() && outside_gain.is_none()) {
                             return Err(v(prop, "success-ack-without-full-payout", format!("{at}: success acknowledgement but the receiver gained {gained} of {amount}")));
                         }
+                    }
+                    if prop == "C12" {
                         if out_pre.checked_sub(*amount) != Some(out_post) {
                             return Err(v(prop, "success-ack-balance", format!("{at}: success acknowledgement: channel balance went {out_pre} -> {out_post}, amount {amount}")));
                         }
@@ -1639,7 +1657,7 @@ pub fn decode_case(prop: &str, u: &mut arbitrary::Unstructured) -> Case {
                     4 => RecvAmt::Frac(u.arbitrary().unwrap_or(0)),
                     _ => if malicious { RecvAmt::Abs(vcore::amounts::arb_u128(u)) } else { RecvAmt::Frac(255) },
                 };
-                Op::Recv { ch: arb_below(u, 3) as u8, tok: arb_below(u, N_TOK) as u8, live: if arb_bool(u, 4, 5) { Some(u.arbitrary().unwrap_or(0)) } else { None }, form, amt, receiver: if arb_bool(u, 1, 13) { N_USERS as u8 + if malicious && arb_bool(u, 1, 2) { 1 } else { 0 } } else { arb_below(u, N_USERS) as u8 }, payout_fails: arb_bool(u, 1, 5), memo: arb_bool(u, 1, 5) }
+                Op::Recv { ch: arb_below(u, 3) as u8, tok: arb_below(u, N_TOK) as u8, live: if arb_bool(u, 4, 5) { Some(u.arbitrary().unwrap_or(0)) } else { None }, form, amt, receiver: if arb_bool(u, 1, 13) { N_USERS as u8 + if arb_bool(u, 1, 2) { 1 } else { 0 } } else { arb_below(u, N_USERS) as u8 }, payout_fails: arb_bool(u, 1, 5), memo: arb_bool(u, 1, 5) }
             }
             9 => {
                 let n = arb_below(u, 40);
